@@ -1836,6 +1836,11 @@ RETRY:
 	// After merging all the values for this key, we might not have any.  (e.g. they were all deleted
 	// through many tombstones).  In this case, move on to the next key instead of ending iteration.
 	if len(k.merged) == 0 {
+		// A block that could not be decoded stays queued, so retrying would
+		// merge it again forever. Stop and let the caller see the error.
+		if len(k.errs) > 0 {
+			return false
+		}
 		goto RETRY
 	}
 
